@@ -79,7 +79,7 @@ pub fn child_reproduces(prop: &str, case: &Value, sig: &str, timeout_s: u64) -> 
     };
     let Some(status) = status else { return sig == "hang" };
     if let Some(want) = sig.strip_prefix("crash:") {
-        let want = want.strip_suffix("/nearmiss").unwrap_or(want);
+        let want = want.split('/').next().unwrap_or(want);
         use std::os::unix::process::ExitStatusExt;
         let name = match status.signal() {
             Some(6) => "SIGIOT",
